@@ -18,8 +18,8 @@ CLAIMED = {
          "The stack denotes the copied sequence for every index container (Vec, IndexOptimized, IndexList); each transition (copy/extend/from_iter/clear/clone/serde/reserve/with_capacity/merge_capacity) is replayed and len, is_empty, get(0..len+2), iteration, cloned iterators and size hints are compared with the model.", "5 C03"),
  "C04": ("tlc-regions", "TLC invariant StringsValid (Utf8.tla DFA) on string-bearing shapes + replay checking bytes of every &str",
          "Every string read in the model is valid UTF-8 and was pushed into that slot; on the code every &str handed out along every replayed transition is validated byte-wise (std::str::from_utf8 on as_bytes) and must be one of the pushed strings.", "5 C04"),
- "C05": ("tlc-index", "TLC model check of ICMC over exact 64-bit words + replay of every transition on the real containers",
-         "All push/extend/clear sequences up to the bound over the transition-covering alphabet (0, small strides, u32::MAX, u32::MAX+1, 2^63, usize::MAX-1, usize::MAX): the model proves the container denotes the pushed sequence and Stride accepts exactly the documented pattern; every transition is executed on Vec/Stride/IndexList/IndexOptimized in overflow-checked and wrapping builds (panic = mismatch).", "5 C05"),
+ "C05": ("tlc-index", "TLC model check of ICMC over exact 64-bit words + replay of every transition on the real containers + TLC trace validation of long recorded walks (TraceIC)",
+         "All push/extend/clear sequences up to the bound over the transition-covering alphabet (0, small strides, u32::MAX, u32::MAX+1, 2^63, usize::MAX-1, usize::MAX): the model proves the container denotes the pushed sequence and Stride accepts exactly the documented pattern; every transition is executed on Vec/Stride/IndexList/IndexOptimized in overflow-checked and wrapping builds (panic = mismatch). Walks of thousands of pushes (long strides, saturation, stride*count leaving usize, the u32->u64 switch, extend batches, clears, copies) recorded from the real containers are validated against the same state machine.", "5 C05"),
  "C06": ("tlc-huffman", "TLC model check of HuffmanMC (every optimal code as merge outcome) + trace validation of recorded runs against TraceHuffman",
          "Tiling of the bit axis, refusal exactly outside the statistics and code sanity are invariants of the bounded model; every history of the model and seeded random scenarios (1..1000 symbols, Fibonacci profiles, items spanning 0..2+ whole bytes at every phase, generations, wrapped items) are executed on HuffmanContainer<u8>/<u16> in both profiles; TLC validates each recorded event: measured code lengths must be an optimal prefix code for the spec's own merged statistics, bit ranges, reads and refusals must be as specified.", "5 C06"),
  "C07": ("tlc-dictionary", "TLC model check of DictMC (every admissible ranking as merge outcome) + trace validation against TraceDict",
@@ -43,10 +43,10 @@ CLAIMED = {
  "C16": ("tlc-regions", "TLC model with Serde copy action + replay through serde_json with copy-vs-original comparison",
          "Serialising to JSON and back yields an object that reads identically and answers the same continuation as the original (regions, index containers, FlatStacks); values JSON cannot carry (NaN) are outside the domain.", "5 C16"),
  "C17": ("tlc-alloc", "TLC invariants ReserveItemsSufficient / ReserveRegionsSufficient on the capacity-ledger operators of Regions.tla + trace validation of capacities and allocator calls against TraceAlloc",
-         "On the model, what each region's reserve_items / reserve_regions / merge_regions rule reserves per backing vector is enough for exactly the announced contents (all reachable states, all batches). On the code, a counting allocator and heap_size capacities are recorded around every push of pre-sized and un-pre-sized histories; TLC decides from its own ledger which pushes are covered and requires constant capacities and zero allocator calls for them, doubling growth and a logarithmic allocator budget otherwise.", "5 C17"),
+         "On the model, what each region's reserve_items / reserve_regions / merge_regions rule reserves per backing vector is enough for exactly the announced contents (all reachable states, all batches). On the code, a counting allocator and heap_size capacities are recorded around every push of pre-sized and un-pre-sized histories; TLC decides from its own ledger which pushes are covered and requires constant capacities and zero allocator calls for them, doubling growth and a logarithmic allocator budget otherwise; FlatStacks (merge_capacity, copy, extend in small batches) are part of the recorded histories.", "5 C17"),
  "C18": ("tlc-regions", "TLC action property UsedMonotone + PayloadR lower bound; replay comparing heap_size sums and inequalities",
          "used <= capacity pairwise, sum(used) >= the model's payload + index-entry bytes, non-decreasing on push, back to bookkeeping after clear with no capacity shrinking; the FlatStack's index container must contribute.", "5 C18"),
- "C19": ("tlc-index", "TLC invariant CostRule (documented cost computed independently from the pushed sequence) + replay of heap_size",
+ "C19": ("tlc-index", "TLC invariant CostRule (documented cost computed independently from the pushed sequence) + replay of heap_size + TLC trace validation of long walks (TraceIC)",
          "For every enumerated sequence the real containers' used bytes equal the documented cost; FlatStacks with the optimised container over dense-index regions report zero index bytes (difference to a shadow region).", "5 C19"),
  "C20": ("tlc-regions", "TLC model in which the input form is an ignored argument + replay against a canonical-form twin",
          "Every (state, value, form) is a transition; the replay runs the same history with the canonical form and requires equal indices, equal stored bytes and equal reads.", "5 C20"),
